@@ -28,7 +28,7 @@ _WRAPPERS = {'ImplicitCastExpr', 'ParenExpr', 'MaterializeTemporaryExpr',
 
 
 class N(object):
-    __slots__ = ('storage', 'dtype', 'kind', 'name', 'type', 'op', 'value', 'ref', 'refid', 'reftype', 'arrow',
+    __slots__ = ('refkind', 'storage', 'dtype', 'kind', 'name', 'type', 'op', 'value', 'ref', 'refid', 'reftype', 'arrow',
                  'kids', 'line', 'id', 'parent', 'raw_kind', 'init_style', 'is_postfix',
                  'has_else', 'cast')
 
@@ -84,6 +84,8 @@ def _convert(j, tracker, parent=None):
     n.kind = j.get('kind')
     n.raw_kind = n.kind
     n.name = j.get('name')
+    if n.kind == 'CXXCtorInitializer' and isinstance(j.get('anyInit'), dict):
+        n.name = j['anyInit'].get('name')
     t = j.get('type')
     n.type = t.get('qualType') if isinstance(t, dict) else None
     n.dtype = (t.get('desugaredQualType') or t.get('qualType')) if isinstance(t, dict) else None
@@ -94,6 +96,7 @@ def _convert(j, tracker, parent=None):
     rd = j.get('referencedDecl') or {}
     n.ref = rd.get('name')
     n.refid = rd.get('id')
+    n.refkind = rd.get('kind')
     rt = rd.get('type')
     n.reftype = rt.get('qualType') if isinstance(rt, dict) else None
     if n.kind == 'MemberExpr':
@@ -112,6 +115,7 @@ def _convert(j, tracker, parent=None):
             k.name = k.type = k.dtype = k.op = k.value = k.ref = k.refid = k.reftype = None
             k.arrow = False
             k.storage = ''
+            k.refkind = None
             k.line = tracker.line
             k.id = None
             k.parent = n
@@ -166,6 +170,36 @@ def _split_docs(txt):
     return docs
 
 
+def _toplevel_function_names(text):
+    """names of functions defined in the header at file or namespace scope (not members, not statements)"""
+    import re as _re
+    text = _re.sub(r'//[^\n]*', '', text)
+    text = _re.sub(r'/\*.*?\*/', '', text, flags=_re.S)
+    names = set()
+    stack = []
+    last = 0
+    for i, ch in enumerate(text):
+        if ch == '{':
+            head = text[last:i]
+            head = head[max(head.rfind(';'), head.rfind('}')) + 1:].strip()
+            at_ns = all(k == 'ns' for k in stack)
+            if _re.match(r'(inline\s+)?namespace\b', head):
+                stack.append('ns')
+            else:
+                m = _re.search(r'([A-Za-z_]\w*)\s*\([^()]*(?:\([^()]*\)[^()]*)*\)\s*(?:const\s*)?(?:noexcept\s*)?(?:->\s*[\w:<>\*&\s]+)?$', head)
+                if at_ns and m and not _re.match(r'(struct|class|enum|union)\b', head) and m.group(1) not in ('if', 'for', 'while', 'switch', 'catch'):
+                    names.add(m.group(1))
+                stack.append('other')
+            last = i + 1
+        elif ch == '}':
+            if stack:
+                stack.pop()
+            last = i + 1
+        elif ch == ';':
+            last = i + 1
+    return names
+
+
 FILTERS = ('parse_sentence', 'parsing::', 'combinator_result', 'config', 'utils::argmax')
 
 
@@ -212,6 +246,21 @@ def load(repo):
             # keep the definition (the one with a body / fields)
             if name not in decls or len(list(n.walk())) > len(list(decls[name].walk())):
                 decls[name] = n
+    # free helper functions defined in the header and called from parse_sentence (e.g. an extracted threshold helper)
+    import re as _re
+    known = set(decls) | {'argmax', 'scaffold', 'finalizer_callback'}
+    called = set()
+    defined = _toplevel_function_names(text)
+    if 'parse_sentence' in decls:
+        for n in decls['parse_sentence'].walk():
+            if n.kind == 'DeclRefExpr' and n.refkind == 'FunctionDecl' and n.ref and n.ref not in known and not n.ref.startswith('operator'):
+                if n.ref in defined:
+                    called.add(n.ref)
+    for name in sorted(called):
+        for doc in _split_docs(_run_clang(repo.root, name)):
+            n = _convert(doc, _LineTracker())
+            if n.kind == 'FunctionDecl' and n.name == name and any(k.kind == 'CompoundStmt' for k in n.kids):
+                decls['fn:' + name] = n
     for need in ('parse_sentence', 'cell_item', 'chart', 'matrix', 'operator<',
                  'compute_outside_probabilities', 'config', 'combinator_result', 'utils::argmax'):
         if need not in decls:
@@ -280,9 +329,18 @@ class Env(object):
         self.fn = fn
         self.decl = {}      # decl id -> VarDecl node
         self.mutated = set()
+        self.alias_inline = False   # inline reference-typed locals as aliases (enabled for parse_sentence)
+        self.lambdas = {}   # local name -> (params, call-operator method node)
+        self.functions = {}  # free helper functions by name -> FunctionDecl (filled by the model)
         for n in fn.walk():
             if n.kind in ('VarDecl', 'ParmVarDecl') and n.id:
                 self.decl[n.id] = n
+            if n.kind == 'VarDecl' and (n.type or '').startswith('(lambda'):
+                lam = n.find('LambdaExpr')
+                if lam:
+                    ops = [k for k in lam[0].walk() if k.kind == 'CXXMethodDecl' and k.name == 'operator()']
+                    if ops:
+                        self.lambdas[n.name] = ops[0]
         for n in fn.walk():
             tgt = None
             if n.kind in ('BinaryOperator', 'CompoundAssignOperator') and n.op and \
@@ -300,6 +358,29 @@ class Env(object):
                 if a.kind == 'DeclRefExpr' and a.refid:
                     self.mutated.add(a.refid)
         self._cache = {}
+        self._ifelse = {}
+        for n in fn.walk():
+            if n.kind != 'CompoundStmt':
+                continue
+            kids = n.kids
+            for i, st in enumerate(kids[:-1]):
+                if st.kind != 'DeclStmt':
+                    continue
+                for d in st.kids:
+                    if d.kind == 'VarDecl' and self.init_of(d) is None and i + 1 < len(kids) and kids[i + 1].kind == 'IfStmt' and len(kids[i + 1].kids) == 3:
+                        iff = kids[i + 1]
+
+                        def single_assign(b):
+                            b = b.kids[0] if b.kind == 'CompoundStmt' and len(b.kids) == 1 else b
+                            b = strip(b)
+                            if b.kind == 'BinaryOperator' and b.op == '=' and strip(b.kids[0]).kind == 'DeclRefExpr' and strip(b.kids[0]).refid == d.id:
+                                return b.kids[1]
+                            return None
+                        a, b = single_assign(iff.kids[1]), single_assign(iff.kids[2])
+                        others = [x for x in fn.walk() if x.kind in ('BinaryOperator', 'CompoundAssignOperator') and x.op and x.op.endswith('=') and x.op not in ('==', '!=', '<=', '>=')
+                                  and strip(x.kids[0]).kind == 'DeclRefExpr' and strip(x.kids[0]).refid == d.id]
+                        if a is not None and b is not None and len(others) == 2:
+                            self._ifelse[d.id] = (iff.kids[0], a, b)
 
     def init_of(self, decl):
         for k in decl.kids:
@@ -311,14 +392,22 @@ class Env(object):
         if decl.kind != 'VarDecl' or decl.id in self.mutated:
             return False
         t = (decl.type or '').replace('const ', '').strip()
+        if t.endswith(' const'):
+            t = t[:-6].strip()
         scalar = t in ('float', 'double', 'unsigned int', 'int', 'bool', 'unsigned', 'auto',
                        'category_id', 'unsigned long', 'size_t', 'std::size_t') or t.endswith('*')
-        if not scalar:
+        is_ref = self.alias_inline and t.endswith('&') and not t.endswith('&&') and not (
+            decl.parent is not None and decl.parent.parent is not None and decl.parent.parent.kind == 'CXXForRangeStmt')
+        if not scalar and not is_ref:
             return False
         init = self.init_of(decl)
         if init is None:
             return False
         t_init = term(init, self, _depth=1)
+        if is_ref:
+            # an alias: every later use denotes the same object; allow anything without calls that change state
+            return not any(x[0] in ('unknown', 'new', 'lambda', 'ctor') or (x[0] == 'mcall' and x[2] not in PURE_METHODS)
+                           or (x[0] == 'call' and x[1] not in PURE_FUNCS) for x in subterms(t_init))
         return _pure(t_init)
 
 
@@ -338,6 +427,11 @@ def term(n, env=None, _depth=0):
     k = n.kind
     T = lambda x: term(x, env, _depth)
     if k == 'DeclRefExpr':
+        if env is not None and n.refid in getattr(env, '_ifelse', {}) and _depth < 30:
+            c_, a_, b_ = env._ifelse[n.refid]
+            t_ = mk_cond(term(c_, env, _depth + 1), term(a_, env, _depth + 1), term(b_, env, _depth + 1))
+            if _pure(t_) or True:
+                return t_
         if env is not None and n.refid in env.decl and _depth < 30:
             d = env.decl[n.refid]
             if n.refid not in env._cache:
@@ -387,7 +481,7 @@ def term(n, env=None, _depth=0):
     if k in ('BinaryOperator', 'CompoundAssignOperator'):
         return ('bin', n.op, T(n.kids[0]), T(n.kids[1]))
     if k == 'ConditionalOperator':
-        return ('cond', T(n.kids[0]), T(n.kids[1]), T(n.kids[2]))
+        return mk_cond(T(n.kids[0]), T(n.kids[1]), T(n.kids[2]))
     if k == 'ArraySubscriptExpr':
         return ('idx', T(n.kids[0]), (T(n.kids[1]),))
     if k == 'CXXMemberCallExpr':
@@ -404,9 +498,12 @@ def term(n, env=None, _depth=0):
             obj = args[0]
             if obj[0] == 'var' and env is not None:
                 # a call of a local lambda
-                for d in env.decl.values():
-                    if d.name == obj[1] and (d.type or '').startswith('(lambda'):
-                        return ('call', 'lambda:' + obj[1], tuple(args[1:]))
+                is_lam = obj[1] in env.lambdas or any(d.name == obj[1] and (d.type or '').startswith('(lambda') for d in env.decl.values())
+                if is_lam:
+                    inl = inline_callable(env, env.lambdas.get(obj[1]), tuple(args[1:]), _depth)
+                    if inl is not None:
+                        return inl
+                    return ('call', 'lambda:' + obj[1], tuple(args[1:]))
             return ('idx', obj, tuple(args[1:]))
         if opname == 'operator[]':
             return ('idx', args[0], tuple(args[1:]))
@@ -424,7 +521,12 @@ def term(n, env=None, _depth=0):
     if k == 'CallExpr':
         callee = strip(n.kids[0])
         name = callee.ref or callee.name or '?'
-        return ('call', name, tuple(T(a) for a in n.kids[1:]))
+        args = tuple(T(a) for a in n.kids[1:])
+        if env is not None and name in getattr(env, 'functions', {}):
+            inl = inline_callable(env, env.functions[name], args, _depth)
+            if inl is not None:
+                return inl
+        return ('call', name, args)
     if k == 'InitListExpr':
         return ('init', tuple(T(a) for a in n.kids))
     if k == 'CXXConstructExpr' or k == 'CXXTemporaryObjectExpr':
@@ -440,6 +542,72 @@ def term(n, env=None, _depth=0):
     if k == 'CXXScalarValueInitExpr':
         return ('lit', 0)
     return ('unknown', k)
+
+
+def mk_cond(c, a, b):
+    """conditional term with the negation pushed into the branch order: (!c ? a : b) == (c ? b : a)"""
+    while c[0] == 'un' and c[1] == '!':
+        c, a, b = c[2], b, a
+    if c[0] == 'bin' and c[1] == '==' and c[3] == ('lit', False):
+        c, a, b = c[2], b, a
+    return ('cond', c, a, b)
+
+
+def summarise_callable(fn_node, outer_lambdas=()):
+    """value of a small side-effect-free function / lambda body as one term over its parameters
+    (single-assignment locals inlined, if/return chains as conditional terms), or None."""
+    body = None
+    for k in fn_node.kids:
+        if k.kind == 'CompoundStmt':
+            body = k
+    if body is None:
+        return None
+    env = Env(fn_node)
+
+    def block(stmts):
+        stmts = list(stmts)
+        while stmts:
+            s_ = stmts.pop(0)
+            if s_.kind == 'CompoundStmt':
+                stmts = list(s_.kids) + stmts
+            elif s_.kind == 'ReturnStmt':
+                return term(s_.kids[0], env) if s_.kids else None
+            elif s_.kind == 'IfStmt':
+                c = term(s_.kids[0], env)
+                a = block([s_.kids[1]] + stmts)
+                b = block(([s_.kids[2]] if len(s_.kids) > 2 else []) + stmts)
+                if a is None or b is None:
+                    return None
+                return mk_cond(c, a, b)
+            elif s_.kind in ('DeclStmt', 'NullStmt'):
+                for d in s_.find('VarDecl'):
+                    if env.init_of(d) is not None and not env.inlinable(d):
+                        return None
+            else:
+                return None
+        return None
+    t = block(body.kids)
+    if t is None or not _pure(t):
+        return None
+    if any(x[0] == 'idx' and x[1][0] == 'var' and x[1][1] in outer_lambdas for x in subterms(t)):
+        return None     # forwards to another local lambda: keep the call visible
+    return t
+
+
+def inline_callable(env, fn_node, args, depth):
+    if fn_node is None or depth > 20:
+        return None
+    cache = env.__dict__.setdefault('_summaries', {}) if hasattr(env, '__dict__') else {}
+    key = fn_node.id or id(fn_node)
+    if key not in cache:
+        cache[key] = summarise_callable(fn_node, tuple(getattr(env, 'lambdas', {})))
+    body = cache[key]
+    if body is None:
+        return None
+    params = [p.name for p in fn_node.kids if p.kind == 'ParmVarDecl']
+    if len(params) != len(args):
+        return None
+    return subst(body, {('var', p): a for p, a in zip(params, args)})
 
 
 def show(t):
@@ -606,9 +774,29 @@ def context(n, env, stop=None):
         elif p.kind == 'WhileStmt':
             if child is p.kids[-1]:
                 out.append(('while', term(p.kids[0], env), p))
+        elif p.kind == 'CompoundStmt':
+            # guard clauses: an earlier `if (c) continue/break/return;` without else means !c for what follows
+            later = []
+            for sib in p.kids:
+                if sib is child:
+                    break
+                if sib.kind == 'IfStmt' and len(sib.kids) == 2 and _always_leaves(sib.kids[1]):
+                    later.append(('if', term(sib.kids[0], env), False, sib))
+            out.extend(reversed(later))
         child = p
     out.reverse()
     return out
+
+
+def _always_leaves(stmt):
+    """does this statement always end in continue / break / return / throw?"""
+    if stmt.kind in ('ContinueStmt', 'BreakStmt', 'ReturnStmt', 'CXXThrowExpr'):
+        return True
+    if stmt.kind == 'CompoundStmt' and stmt.kids:
+        return _always_leaves(stmt.kids[-1])
+    if stmt.kind == 'ExprWithCleanups' and stmt.kids:
+        return _always_leaves(stmt.kids[0])
+    return False
 
 
 def for_parts(p):
